@@ -192,9 +192,10 @@ def grp_group(gid, h, scale, kind_salt=0, xsd=False):
         a["ids"] = sorted(a.get("ids", []))
         path.append({"a": a, "t": project(), "x": _mon(slide, xsd)})
     # drop the slide again (keeps the bench small)
-    rid = prs.slides._sldIdLst[-1].rId
-    prs.part.drop_rel(rid)
-    prs.slides._sldIdLst.remove(prs.slides._sldIdLst[-1])
+    lst = prs.part._element.find("{http://schemas.openxmlformats.org/presentationml/2006/main}sldIdLst")
+    last = lst[-1]
+    prs.part.drop_rel(last.get("{http://schemas.openxmlformats.org/officeDocument/2006/relationships}id"))
+    lst.remove(last)
     return {"id": gid, "path": path}
 
 
